@@ -685,3 +685,58 @@ def g10_children_only(prog: Program, run: Run, rule: str, patterns: Sequence[str
                           f"{f.module.rel}:{x.lineno}", ast.unparse(x))
     run.ok(rule, "package", "no parser iterates over all descendants of its element", "odxtools/")
     return n
+
+
+# --------------------------------------------------------------------- factories
+def dispatch_table(prog: Program, f: FuncInfo) -> Dict[object, str]:
+    """key -> class name for a factory that picks a class by a key: an if/elif chain
+    (`if k == "A": return ClsA.from_et(...)`) or a dictionary (`{"A": ClsA, ...}` in the function
+    or at module level) whose looked-up value is then called. Keys are constants or the dotted
+    text of enum members."""
+    out: Dict[object, str] = {}
+
+    def key_of(e: ast.AST):
+        if isinstance(e, ast.Constant):
+            return e.value
+        if isinstance(e, ast.Attribute):
+            return ast.unparse(e)
+        return None
+    for x in walk_no_nested(f.node):
+        if isinstance(x, ast.If) and isinstance(x.test, ast.Compare) and len(
+                x.test.ops) == 1 and isinstance(x.test.ops[0], ast.Eq):
+            k = key_of(x.test.comparators[0])
+            if k is None:
+                k = key_of(x.test.left)
+            cls = None
+            for st in x.body:
+                for c in ast.walk(st):
+                    if isinstance(c, ast.Call):
+                        fn_ = c.func
+                        if isinstance(fn_, ast.Attribute) and isinstance(fn_.value, ast.Name) and \
+                                prog.resolve_class_name(f.module, fn_.value.id) is not None:
+                            cls = cls or fn_.value.id
+                        elif isinstance(fn_, ast.Name) and prog.resolve_class_name(
+                                f.module, fn_.id) is not None:
+                            cls = cls or fn_.id
+            if k is not None and cls is not None:
+                out.setdefault(k, cls)
+    dicts = [d for d in walk_no_nested(f.node) if isinstance(d, ast.Dict)]
+    names = {n.id for n in walk_no_nested(f.node) if isinstance(n, ast.Name)}
+    for st in f.module.tree.body:
+        if isinstance(st, (ast.Assign, ast.AnnAssign)) and isinstance(
+                getattr(st, "value", None), ast.Dict):
+            tg = st.targets[0] if isinstance(st, ast.Assign) else st.target
+            if isinstance(tg, ast.Name) and tg.id in names:
+                dicts.append(st.value)
+    for d in dicts:
+        pairs = []
+        for k_, v_ in zip(d.keys, d.values):
+            k = key_of(k_) if k_ is not None else None
+            if k is None or not isinstance(v_, ast.Name) or prog.resolve_class_name(
+                    f.module, v_.id) is None:
+                pairs = []
+                break
+            pairs.append((k, v_.id))
+        for k, c in pairs:
+            out.setdefault(k, c)
+    return out
